@@ -131,6 +131,8 @@ PROPS = {
              "bound": "11 data types x {FORM, general RAT_FUNC with arbitrary finite coefficients} x arbitrary finite declared limits", "timeout": 240},
             {"engine": "E2", "module": "lib", "harness": "h_check_axis_datatype_dispatch", "functions": ["checker::check_characteristic_common", "checker::calc_compu_method_limits", "checker::check_limits_valid"],
              "bound": "MAP whose first axis is STD/FIX/COM_AXIS and whose second axis is a STD_AXIS with limits inside / outside the UWORD range of AXIS_PTS_Y (6 cases)", "timeout": 200, "extra_modules": ["tokenizer"]},
+            {"engine": "E2", "module": "lib", "harness": "h_check_axis_dispatch_cube5", "functions": ["checker::check_characteristic_common", "checker::calc_compu_method_limits"],
+             "bound": "CUBE_5 with five STD_AXIS: which AXIS_PTS_n entry is UWORD (5) x which axis declares limits 0..1000 (5)", "timeout": 300, "extra_modules": ["tokenizer"], "must_cover": ["axis_dispatch_cube5_end"], "max_steps": 5000000},
             {"engine": "E2", "module": "lib", "harness": "h_check_limit_dispatch", "functions": ["A2lFile::check", "checker::check_measurement", "checker::check_characteristic_common", "checker::check_axis_pts", "checker::check_typedef_measurement", "checker::calc_compu_method_limits"],
              "bound": "{MEASUREMENT, CHARACTERISTIC, AXIS_PTS, STD_AXIS AXIS_DESCR, TYPEDEF_MEASUREMENT} x {NO_COMPU_METHOD, IDENTICAL, LINEAR 2x, TAB_VERB, FORM} x limits {inside, below, above} on UBYTE (75 documents): exactly one LimitCheckError iff outside and evaluated", "timeout": 300, "extra_modules": ["tokenizer"], "must_cover": ["limit_dispatch_end"], "max_steps": 5000000},
             {"engine": "E2", "module": "checker", "harness": "h_c12_limits_valid", "functions": ["checker::check_limits_valid"],
@@ -289,6 +291,9 @@ PROPS = {
              "bound": "0-2 blank lines before /end A2ML x 4 gaps inside an uninterpreted IF_DATA with two nested blocks, each from {space, LF, blank line, CRLF} (768 layouts)", "timeout": 600, "extra_modules": ["tokenizer"], "validate": 40, "quick": False},
             {"engine": "E2", "module": "lib", "harness": "h_layout_ifdata_small", "functions": ["load_from_string", "tokenizer::handle_a2ml", "ifdata::parse_unknown_taggedstruct", "a2ml::GenericIfData::write_item"],
              "bound": "0-2 blank lines before /end A2ML x 2 gaps (before /end INNER, before /end OUTER) from {space, LF, blank line, CRLF} (48 layouts)", "timeout": 400, "extra_modules": ["tokenizer"], "validate": 20},
+            {"engine": "E2", "module": "lib", "harness": "h_every_element_roundtrip", "msg_prefix": "C05", "functions": ["load_from_string", "A2lFile::write_to_string", "writer::Writer::*", "specification::*::stringify of every element"],
+             "bound": "the every-element document (writer's own format, 465 lines, hex and decimal notation alternating): reproduced byte for byte", "timeout": 900, "extra_modules": ["tokenizer"], "max_steps": 300000000,
+             "must_cover": ["generated document and fingerprint module are in place"]},
             {"engine": "E2", "module": "lib", "harness": "h_comment_layout_lineends", "msg_prefix": "C05", "functions": ["load_from_string", "tokenizer::tokenize_core", "tokenizer::count_newlines", "parser::ParserState::get_line_offset", "writer::Writer::add_group", "A2lFile::write_to_string"],
              "bound": "block comment with 0..=3 inner line breaks x 0..=2 line breaks behind it x 3 positions (file head, in front of /begin MODULE, in front of /end MODULE) x line ends {LF, CRLF, CR} (108 documents)", "timeout": 300, "extra_modules": ["tokenizer"], "must_cover": ["comment_layout_end"]},
         ],
@@ -392,7 +397,7 @@ PROPS = {
                         "the ~30 error_or_log call sites inside generated element parsers are reached only as far as the template exercises them"],
         "jobs": [
             {"engine": "E2", "module": "lib", "harness": "h_strict_vs_nonstrict", "functions": ["load_from_string", "parser::ParserState::parse_file", "parser::ParserState::error_or_log", "parser::ParserState::get_string", "parser::ParserState::get_identifier", "parser::ParserState::handle_multiplicity_error", "parser::ParserState::check_block_version_lower", "parser::ParserState::handle_unknown_taggedstruct_tag", "specification::Measurement::parse"],
-             "bound": "13 fault kinds (incl. missing / unknown ASAP2_VERSION) x {faulty element on one line, first parameter on the next line}, each loaded with strict = true and strict = false; diagnostics must name the line of the faulty token", "timeout": 300, "extra_modules": ["tokenizer"], "validate": 26},
+             "bound": "16 fault kinds (incl. missing / unknown ASAP2_VERSION, wrong end tag of A2ML / IF_DATA / an ordinary block) x {faulty element on one line, first parameter on the next line}, each loaded with strict = true and strict = false; diagnostics must name the line of the faulty token", "timeout": 300, "extra_modules": ["tokenizer"], "validate": 26},
         ] + [
             {"engine": "E2", "module": "parser", "harness": h, "functions": ["parser::ParserState::handle_unknown_taggedstruct_tag", "parser::ParserState::error_or_log"],
              "bound": "unknown tag + every 1..3-lexeme soup, strictness symbolic: strict never accepts", "timeout": 300, "extra_modules": ["tokenizer"]}
@@ -429,15 +434,18 @@ PROPS = {
         "grammar_deviations": True,
         "trusted": T_STD + ["/verif/reference/a2l_grammar_dsl.txt: frozen copy of the specification DSL (body of a2l_specification! in specification_orig.rs at the pinned commit) as the reference grammar",
                             "/verif/vf/dslgen.py: instance and deviation generator over that DSL"],
-        "assumptions": ["one document per (parent, element) pair of the reference grammar (273 pairs covering 203 of 205 elements) in its specified form (at version 1.71 and exactly at the lower version bound of every gated element / enum value: 365), and one per single deviation: last parameter missing (208), optional element twice (198), wrong block form (273), unknown enum value (59), element newer than the declared version (39), enum value newer than the declared version (61), deprecated element (2), required element missing (1): 1206 documents, each loaded strict and non-strict",
+        "assumptions": ["one document per (parent, element) pair of the reference grammar (273 pairs covering 203 of 205 elements) in its specified form (at version 1.71 and exactly at the lower version bound of every gated element / enum value: 365), and one per single deviation: last parameter missing (208), optional element twice (198), wrong block form (273), unknown enum value (59), element newer than the declared version (39), enum value newer than the declared version (61), deprecated element (2), required element missing (1): 1329 documents, each loaded strict and non-strict",
                         "values are one representative per parameter type (the symbolic value space of parameters is C02's subject); the deviation is at the last parameter / the first enum parameter; elements with an open-ended identifier list accept any error class for structural deviations (the list swallows what follows)",
                         "A2ML and IF_DATA content are outside (C18/C19)"],
         "jobs": [
             {"engine": "E2", "module": "lib", "harness": "h_grammar_%d" % c, "functions": ["load_from_string", "specification::*::parse of every element of the reference grammar", "parser::ParserState::{require_block,require_keyword,handle_multiplicity_error,check_block_version_lower,check_block_version_upper,check_enumitem_version_lower,get_integer,get_string,get_identifier,get_double}", "A2lFile::write_to_string"],
-             "bound": "documents k = %d (mod 4) of the 1206 generated documents, strict and non-strict" % c, "timeout": 900, "extra_modules": ["tokenizer"], "max_steps": 6000000, "validate": 40,
+             "bound": "documents k = %d (mod 4) of the 1329 generated documents, strict and non-strict" % c, "timeout": 900, "extra_modules": ["tokenizer"], "max_steps": 6000000, "validate": 40,
              "must_cover": ["deviation documents are in place"]}
             for c in (0, 1, 2, 3)
         ] + [
+            {"engine": "E2", "module": "lib", "harness": "h_every_element_roundtrip", "functions": ["load_from_string", "specification::*::parse / stringify of every element of the grammar in one document"],
+             "bound": "one document with every element of the grammar valid at version 1.71 (all _X.._5 variants side by side), generated from the DSL of the tree under check: strict load without diagnostics, values written back", "timeout": 900, "extra_modules": ["tokenizer"], "max_steps": 300000000,
+             "must_cover": ["generated document and fingerprint module are in place"]},
             {"engine": "E2", "module": "lib", "harness": "h_grammar_versions", "functions": ["parser::ParserState::check_block_version_lower", "parser::ParserState::check_block_version_upper", "parser::ParserState::check_enumitem_version_lower", "parser::A2lVersion::new", "parser::ParserState::parse_version", "specification::*::parse of every version-gated element"],
              "bound": "101 version-gated (parent, element) / enum-value documents x the file version as solver variable over {1.50, 1.51, 1.60, 1.61, 1.70, 1.71} (two symbolic digits)", "timeout": 900, "extra_modules": ["tokenizer"], "max_steps": 6000000, "validate": 40,
              "must_cover": ["version-open documents are in place"]},
@@ -459,12 +467,21 @@ PROPS = {
             {"engine": "E2", "module": "lib", "harness": "h_c20_documents", "functions": ["specification::*::parse / stringify of every element kind in the sample document and in the all-kinds module", "A2lFile::sort", "A2lFile::sort_new_items"],
              "bound": "sample document strict / non-strict; all-kinds module load, write, sort, write, sort_new_items, write (3 concrete paths)", "timeout": 900, "extra_modules": ["tokenizer"], "max_steps": 80000000, "validate": 3},
             {"engine": "E2", "module": "lib", "harness": "h_c20_faults", "functions": ["specification::Measurement::parse", "parser::ParserState::error_or_log", "load_from_string"],
-             "bound": "13 fault kinds x 2 layouts x strict / non-strict (52 documents)", "timeout": 400, "extra_modules": ["tokenizer"], "max_steps": 4000000, "validate": 10},
+             "bound": "16 fault kinds x 2 layouts x strict / non-strict (64 documents)", "timeout": 400, "extra_modules": ["tokenizer"], "max_steps": 4000000, "validate": 10},
             {"engine": "E2", "module": "lib", "harness": "h_c20_unknown_elements", "functions": ["specification::{RecordLayout,Measurement,Characteristic,AxisDescr,CompuMethod,Module}::parse (TAG_LISTs)", "parser::ParserState::handle_unknown_taggedstruct_tag"],
              "bound": "3 unknown payloads x every insertion point of the C07 document x strict / non-strict", "timeout": 600, "extra_modules": ["tokenizer"], "max_steps": 6000000, "validate": 10},
             {"engine": "E2", "module": "lib", "harness": "h_c20_every_element", "functions": ["specification::*::parse / stringify of every element of the grammar (generated document)", "load_from_string", "A2lFile::write_to_string"],
              "bound": "the every-element document generated from the DSL (203 of 205 grammar elements), strict / non-strict: diagnostics, written text and every data field of the model (generated fingerprint)", "timeout": 900, "extra_modules": ["tokenizer"], "max_steps": 300000000, "validate": 2,
              "must_cover": ["generated document and fingerprint module are in place"]},
+            {"engine": "E2", "module": "lib", "harness": "h_c20_deviations_q", "functions": ["specification::*::parse of every element of the reference grammar", "parser::ParserState::handle_multiplicity_error", "parser::ParserState::require_block / require_keyword"],
+             "bound": "every 8th document of the C04 family (specified forms and single deviations) + every 'required element missing' document, strict / non-strict, observed on both builds", "timeout": 900, "extra_modules": ["tokenizer"], "max_steps": 6000000, "validate": 10,
+             "must_cover": ["deviation documents are in place"]},
+        ] + [
+            {"engine": "E2", "module": "lib", "harness": "h_c20_deviations_%d" % c, "quick": False, "functions": ["specification::*::parse of every element of the reference grammar"],
+             "bound": "documents k = %d (mod 8) of the C04 family, strict / non-strict, observed on both builds" % c, "timeout": 900, "extra_modules": ["tokenizer"], "max_steps": 6000000, "validate": 6,
+             "must_cover": ["deviation documents are in place"]}
+            for c in (1, 2, 3, 4, 5, 6, 7)
+        ] + [
             {"engine": "E2", "module": "lib", "harness": "h_c20_versions", "quick": False, "functions": ["specification::*::parse of every version-gated element", "parser::ParserState::check_block_version_lower", "parser::ParserState::check_enumitem_version_lower"],
              "bound": "101 version-gated documents of the reference grammar x file version symbolic over the six ASAP2 versions x strict / non-strict, observed on both builds", "timeout": 900, "extra_modules": ["tokenizer"], "max_steps": 6000000, "validate": 10,
              "must_cover": ["version-open documents are in place"]},
